@@ -112,6 +112,7 @@ type PodInfo struct {
 	BoundStep     int
 	Index         int        // ordinal for sts/tapp pods, -1 otherwise
 	Ranges        [][]string // request_ip_range of this pod (the workload's template may change later)
+	Terminating   bool       // deletionTimestamp set (graceful deletion in progress): the pod still exists and runs
 }
 
 func (p *PodInfo) key() string    { return p.NS + "/" + p.Name }
